@@ -22,6 +22,7 @@ ROLE = [
     (re.compile(r"^findCompilerVendor\.cpp$"), 10),
     (re.compile(r"^build\.log$"), 11),
     (re.compile(r"^output$"), 12),
+    (re.compile(r"^compilerSupportsOpenMP\.cpp$"), 13),
 ]
 TEMP_RE = re.compile(r"^([0-9a-f]{16})\.(.+)$")
 
